@@ -3,8 +3,9 @@
 C04 - vector acceptance is exactly the version's grammar; errors follow the taxonomy.
 
 Generators: (i) Hypothesis: valid vectors, 1..3-operation mutants (15 character- and field-level
-operators), arbitrary text; (ii) COMPLETE one-edit neighbourhoods (every deletion, replacement and
-insertion over a 40-character alphabet, every field drop / duplicate / adjacent swap) of seeded seed
+operators incl. Unicode look-alikes), arbitrary text; (ii) COMPLETE one-edit neighbourhoods (every deletion,
+replacement and insertion over a 40-character alphabet, up to ten Unicode look-alikes of every character (other
+scripts' digits, full-width forms, case-folding specials), every field drop / duplicate / adjacent swap) of seed
 vectors; (iii) coverage-guided fuzzing (atheris) in the thorough tier, see vf/fuzz.
 Oracle: the independent reference acceptor vf.ref.classify.
 """
@@ -57,6 +58,10 @@ def one_edit_ball(s, ver):
     for i in range(len(s) + 1):
         for c in A:
             out.append(s[:i] + c + s[i:])
+    conf = gen.confusables()
+    for i, ch in enumerate(s):                                        # every Unicode look-alike of every character
+        for c in conf.get(ch, ())[:10]:
+            out.append(s[:i] + c + s[i + 1:])
     fs = s.split("/")
     for j in range(len(fs)):
         out.append("/".join(fs[:j] + fs[j + 1:]))                    # drop
@@ -96,6 +101,24 @@ def ball_work(shard, n_seeds, seed):
             if len(part.samples) < 2 and shard == 0:
                 part.samples.append({"ver": ver, "seed_vector": s, "ball_size": len(ball), "member": ball[len(ball) // 3]})
     return part
+
+
+def accepted_outside_grammar(shard, n_seeds, seed, salt):
+    """
+    strings of complete one-edit neighbourhoods that the constructor ACCEPTS although the reference grammar does not
+    (none on a tree where C04 holds).  C08 and C10 quantify over accepted vectors and feed these to their checks.
+    -> list of (ver, string), number of strings tried
+    """
+    rng = random.Random(runner.mix(seed, salt, shard))
+    out, tried = [], 0
+    for ver in spec.VKEYS:
+        for i in range(n_seeds):
+            s = gen.rng_vector(rng, ver, p_opt=(0.0, 1.0, 0.4)[(i + shard) % 3], shuffle=((i + shard) % 3 == 2))
+            for t in one_edit_ball(s, ver):
+                tried += 1
+                if ref.classify(ver, t)[0] != ref.OK and obs.construct(ver, t)[0] == "ok":
+                    out.append((ver, t))
+    return out, tried
 
 
 def hyp_part(n_examples, shard):
